@@ -1,15 +1,20 @@
 # tier budgets (sourced by bin/check): runs and wall-clock budget of the exploration phase
-runs_quick=3000; budget_quick=55s
+# (quick: measured 30-50 s on 16 idle cores; the wall-clock budget cuts the batch on a loaded machine)
+runs_quick=3800; budget_quick=60s
 runs_thorough=120000; budget_thorough=25m
 case "$ID" in
- C04) runs_quick=4000 ;;
- C05) runs_quick=6000 ;;
- C07|C08) runs_quick=1800; budget_quick=60s ;;
- C11|C12) runs_quick=2500 ;;
- C13|C14) runs_quick=1300; budget_quick=60s ;;
- C16) runs_quick=2200; budget_quick=60s ;;
- C17) runs_quick=40000; runs_thorough=2000000 ;;
- C19) runs_quick=20000; runs_thorough=1000000 ;;
- C18) runs_quick=600; budget_quick=60s; runs_thorough=20000 ;;
+ C04) runs_quick=5500 ;;
+ C05) runs_quick=7500 ;;
+ C07) runs_quick=2400 ;;
+ C08) runs_quick=2000 ;;
+ C09|C10) runs_quick=3400 ;;
+ C11|C12) runs_quick=3000 ;;
+ C13) runs_quick=1600 ;;
+ C14) runs_quick=1800 ;;
+ C15) runs_quick=4500 ;;
+ C16) runs_quick=2700 ;;
+ C17) runs_quick=100000; runs_thorough=2000000 ;;
+ C19) runs_quick=30000; runs_thorough=1000000 ;;
+ C18) runs_quick=800; runs_thorough=20000 ;;
  C20) runs_quick=192; runs_thorough=4000 ;;
 esac
